@@ -10,6 +10,10 @@ CLAIMED = {
  "C07": ("DESIGN §6 C07", "seeded simulation of accepted workflows whose expressions fail only at run time (division by zero, bad index, failing conversion, omitted optional field) and of misbehaving plugins (panic, crash, undeclared data); oracle: no engine or caller goroutine panics (panics are captured in-process with goroutine name and stack)"),
  "C08": ("DESIGN §6 C08", "seeded simulation of workflows that reference every kind of engine-generated stage output with the fault that produces it; oracle: no `bug:` error or log, the returned output validates against the declared output schema, and an accepted workflow never fails evaluation for a type reason the model does not predict"),
  "C09": ("DESIGN §6 C09", "site-targeted starvation, PCT, random and bounded-preemption schedules with simulated-time jumps over small fixed-meaning workflows; oracle: the result equals the reference result, in particular no spurious 'no more executable steps'"),
+ "C05": ("DESIGN §6 C05", "seeded simulation with every fault kind (deploy failure/hang, connection death at any byte, schema mismatch, close errors, plugin crash/panic), schema-probe faults during Prepare, and caller cancellation at any decision; oracle at the instant each call returns: every successful deployment of the call has been closed, no engine goroutine of the call is still alive, none remains at the end"),
+ "C06": ("DESIGN §6 C06", "the caller's cancellation is an environment action released at a scheduler-chosen decision (before deploy, during deploy, waiting for input, running, finishing); plugins honour / ignore / lack the cancel signal, closure timeouts 0/10/200/5000 ms; oracle: Execute returns within 5 s + closure timeouts + 1 s of simulated time in the fair suffix, every plugin executing at cancellation is signalled or shut down and its deployment closed before Execute returns, and a returned output is backed by values genuinely produced in the run"),
+ "C14": ("DESIGN §6 C14", "one Prepare then 2-4 Execute calls by client goroutines, sequential, overlapped and mixed, with different inputs, some cancelled; oracle: every non-cancelled run returns its own reference result and every plugin input equals the evaluation over that run's own data (each run carries its own tag and number)"),
+ "C15": ("DESIGN §6 C15", "workflows with !wait-optional, !soft-optional, !oneof and !ordisabled in step inputs, wait_for and outputs (nested in lists/maps), sources succeeding / failing / disabled / never finishing, under adversarial completion orders; oracle: reference-model evaluation of the tags (presence, value, discriminator), a wait-optional consumer starts only after its source was produced if it is produced at all, a soft-optional source never delays its consumer"),
 }
 NA = {
  "C11": "pure totality claim over byte strings: no schedule, clock, fault or interleaving in it (input fuzzing is a different technique); see DESIGN §7",
